@@ -74,7 +74,9 @@ def main():
         sd = os.path.join(VERIF, 'seeded')
         if os.path.isdir(sd):
             for d in sorted(os.listdir(sd)):
-                pf = os.path.join(sd, d, 'patch.diff')
+                pf = os.path.join(sd, d, 'patch_rebased.diff')
+                if not os.path.exists(pf):
+                    pf = os.path.join(sd, d, 'patch.diff')
                 mf = os.path.join(sd, d, 'meta.json')
                 if os.path.exists(pf) and os.path.exists(mf) and a.only in d:
                     meta = json.load(open(mf))
